@@ -510,6 +510,8 @@ type FuncContract struct {
 	Inline   bool
 	Trusted  bool
 	Pure     bool
+	Uses     []string
+	Functional bool
 	NoSafety bool
 	Extern   bool
 	ExtParams  []Param
@@ -532,6 +534,7 @@ type Lemma struct {
 	File    string
 	Reveal  []string
 	Hints   []string
+	Uses    []string
 }
 
 type GlobalInv struct {
@@ -550,14 +553,22 @@ type Contracts struct {
 	Lemmas  []*Lemma
 	GInvs   []*GlobalInv
 	Assumed []string // human-readable list of assumed/trusted items
+	Congs   []*Congruence
 }
 
 func NewContracts() *Contracts {
 	return &Contracts{Specs: map[string]*SpecFunc{}, Funcs: map[string]*FuncContract{}}
 }
 
-var clauseKeywords = []string{"spec", "func", "extern", "requires", "ensures", "assigns", "loop", "lemma",
-	"props", "inline", "trusted", "pure", "nosafety", "globalinv", "reveal", "hint", "opt"}
+type Congruence struct {
+	Fn, SliceParam, LenParam string
+	Props                    []string
+	Line                     int
+	File                     string
+}
+
+var clauseKeywords = []string{"congruence", "spec", "func", "extern", "requires", "ensures", "assigns", "loop", "lemma",
+	"use", "props", "inline", "trusted", "pure", "functional", "nosafety", "globalinv", "reveal", "hint", "opt"}
 
 func startsClause(s string) (string, bool) {
 	for _, k := range clauseKeywords {
@@ -629,7 +640,7 @@ func (c *Contracts) ParseContractText(text, file, pkgPath string) error {
 				if err != nil {
 					return errf("%v", err)
 				}
-				fc.Key, fc.ExtParams, fc.ExtResults = name, ps, rs
+				fc.Key, fc.ExtParams, fc.ExtResults = strings.ReplaceAll(name, ",", ""), ps, rs
 				fc.Pkg = ""
 			} else {
 				fc.Key = rest
@@ -672,6 +683,13 @@ func (c *Contracts) ParseContractText(text, file, pkgPath string) error {
 			} else if cur != nil {
 				cur.Opts["hint"] += "\x00" + rest
 			}
+		case "congruence":
+			f := strings.Fields(rest)
+			if len(f) < 3 {
+				return errf("congruence <spec> <slice param> <length param> [props…]")
+			}
+			c.Congs = append(c.Congs, &Congruence{Fn: f[0], SliceParam: f[1], LenParam: f[2], Props: f[3:], Line: rc.line, File: file})
+			cur, curLemma = nil, nil
 		case "globalinv":
 			e, err := parseExpr(rest)
 			if err != nil {
@@ -679,10 +697,16 @@ func (c *Contracts) ParseContractText(text, file, pkgPath string) error {
 			}
 			c.GInvs = append(c.GInvs, &GlobalInv{Src: rest, E: e, Pkg: pkgPath, Line: rc.line, File: file})
 		default:
+			if cur == nil && curLemma != nil && kw == "use" {
+				curLemma.Uses = append(curLemma.Uses, strings.Fields(rest)...)
+				continue
+			}
 			if cur == nil {
 				return errf("clause %q outside of a func block", kw)
 			}
 			switch kw {
+			case "use":
+				cur.Uses = append(cur.Uses, strings.Fields(rest)...)
 			case "props":
 				cur.Props = append(cur.Props, strings.Fields(rest)...)
 			case "inline":
@@ -691,6 +715,9 @@ func (c *Contracts) ParseContractText(text, file, pkgPath string) error {
 				cur.Trusted = true
 			case "pure":
 				cur.Pure = true
+			case "functional":
+				cur.Pure = true
+				cur.Functional = true
 			case "nosafety":
 				cur.NoSafety = true
 			case "opt":
